@@ -5,6 +5,7 @@ from harness import cxx_run as X
 class C04(ProgProp):
     id = 'C04'
     want_mc = True
+    wrapper_stream = (150, 4000)
     theorems = ['C04.refines_partial', 'C04.sound', 'C04.claim_not_granted_keeps_selection', 'C04.foreign_release_witness', 'C04.deliver_to_selected_only', 'C04.names_from_configuration', 'C04.cfg_checked']
     partial = [('C04.refines', 'full refinement fails while Deselect(id) clears a selection held by another client '
                 '(known finding D-9); proved under NoForeignRelease, negation proved on a concrete history')]
